@@ -410,6 +410,78 @@ func (x *c12Ctx) eraOracleV2(t types.V2Transaction, origin string) {
 	res.Count("era-oracle:v2-single-era-checked")
 }
 
+// ---------------------------------------------------------------- derived ids under mutation (statement-level, real functions)
+
+// c12DerivedV1 / c12DerivedV2: every id derived from a transaction, keyed "<idkind>/<index…>".
+func c12DerivedV1(t types.Transaction) map[string][32]byte {
+	ids := map[string][32]byte{}
+	for i := range t.SiacoinOutputs {
+		ids[fmt.Sprintf("siacoin-output/%d", i)] = t.SiacoinOutputID(i)
+	}
+	for i := range t.SiafundOutputs {
+		ids[fmt.Sprintf("siafund-output/%d", i)] = t.SiafundOutputID(i)
+		ids[fmt.Sprintf("siafund-claim-output/%d", i)] = t.SiafundClaimOutputID(i)
+	}
+	for i, c := range t.FileContracts {
+		id := t.FileContractID(i)
+		ids[fmt.Sprintf("file-contract/%d", i)] = id
+		for k := range c.ValidProofOutputs {
+			ids[fmt.Sprintf("contract-valid-output/%d/%d", i, k)] = id.ValidOutputID(k)
+		}
+		for k := range c.MissedProofOutputs {
+			ids[fmt.Sprintf("contract-missed-output/%d/%d", i, k)] = id.MissedOutputID(k)
+		}
+	}
+	return ids
+}
+
+func c12DerivedV2(t types.V2Transaction) map[string][32]byte {
+	ids := map[string][32]byte{}
+	txid := t.ID()
+	for i := range t.SiacoinOutputs {
+		ids[fmt.Sprintf("v2-siacoin-output/%d", i)] = t.SiacoinOutputID(txid, i)
+		// the element a later transaction of the same block spends ephemerally carries this id
+		e := t.EphemeralSiacoinOutput(i)
+		ids[fmt.Sprintf("v2-ephemeral-siacoin-element/%d", i)] = e.ID
+	}
+	for i := range t.SiafundOutputs {
+		ids[fmt.Sprintf("v2-siafund-output/%d", i)] = t.SiafundOutputID(txid, i)
+		ids[fmt.Sprintf("v2-ephemeral-siafund-element/%d", i)] = t.EphemeralSiafundOutput(i).ID
+	}
+	for i := range t.FileContracts {
+		ids[fmt.Sprintf("v2-file-contract/%d", i)] = t.V2FileContractID(txid, i)
+	}
+	for i := range t.Attestations {
+		ids[fmt.Sprintf("v2-attestation/%d", i)] = t.AttestationID(txid, i)
+	}
+	return ids
+}
+
+// derivedOracle: every derived id present before and after a mutation must be unchanged when the mutated
+// field is not effect-bearing and changed when it is. skipEffect: the transaction id itself did not react
+// to an effect-bearing field (already reported under its own key): the ids derived from it are not reported again.
+func (x *c12Ctx) derivedOracle(d0, dm map[string][32]byte, want, skipEffect bool, path, name string, rp map[string]any) {
+	res := x.c.Res
+	var keys []string
+	for k := range d0 {
+		if _, ok := dm[k]; ok {
+			keys = append(keys, k)
+		}
+	}
+	sort.Strings(keys)
+	for _, k := range keys {
+		kind := k[:strings.Index(k, "/")]
+		changed := d0[k] != dm[k]
+		res.Count("derived-oracle:" + kind)
+		switch {
+		case !want && changed:
+			res.Violate(fw.Violation{Key: "c12-derived-id-depends-on-noneffect:" + kind + ":" + name, What: "the derived id " + k + " changed when only " + name + " (not effect-bearing) was changed", Replay: rp, Expected: "same id", Observed: "different id"})
+		case want && !changed && !skipEffect:
+			res.Violate(fw.Violation{Key: "c12-derived-id-ignores-effect:" + kind + ":" + path, What: "the derived id " + k + " did not change when the effect-bearing field " + name + " was changed", Replay: rp, Expected: "different id", Observed: "same id"})
+		}
+	}
+}
+
 // ---------------------------------------------------------------- the sweep
 
 type c12Ctx struct {
@@ -461,6 +533,7 @@ func c12SameKinds(a, b types.V2Transaction) bool {
 func (x *c12Ctx) sweepV2(cs consensus.State, t types.V2Transaction, origin string, maxLeaves int) {
 	res := x.c.Res
 	id0, sh0 := t.ID(), cs.InputSigHash(t)
+	d0 := c12DerivedV2(t)
 	leaves := c12Leaves(reflect.ValueOf(&t).Elem())
 	idx := x.rng.Perm(len(leaves))
 	if maxLeaves > 0 && len(idx) > maxLeaves {
@@ -515,18 +588,23 @@ func (x *c12Ctx) sweepV2(cs consensus.State, t types.V2Transaction, origin strin
 		case !want && shChanged:
 			res.Violate(fw.Violation{Key: "c12-sighash-depends-on-noneffect-field:" + l.path, What: "the v2 input sighash changed when only " + name + " (not effect-bearing) was changed", Replay: rp, Expected: "same sighash", Observed: "different sighash"})
 		}
-		// derived ids follow the transaction id
-		if len(m.SiacoinOutputs) > 0 && len(t.SiacoinOutputs) > 0 {
-			if (m.SiacoinOutputID(m.ID(), 0) != t.SiacoinOutputID(id0, 0)) != idChanged {
-				res.Violate(fw.Violation{Key: "c12-derived-id-not-following-txid", What: "a siacoin output id changed differently from the transaction id", Replay: rp})
-			}
-		}
+		// every derived id reacts exactly like the specification says
+		x.derivedOracle(d0, c12DerivedV2(m), want, want && !idChanged, l.path, name, rp)
 	}
 }
 
 func (x *c12Ctx) sweepV1(t types.Transaction, origin string, maxLeaves int) {
 	res := x.c.Res
 	id0 := t.ID()
+	d0 := c12DerivedV1(t)
+	if len(t.Signatures) > 0 { // all signatures dropped at once
+		m := c12CopyV1(t)
+		m.Signatures = nil
+		x.derivedOracle(d0, c12DerivedV1(m), false, false, "Signatures", "Signatures#drop-all", map[string]any{"origin": origin, "field": "Signatures#drop-all", "txn": fw.Hex(chain.Encode(t)), "mutant": fw.Hex(chain.Encode(m))})
+		if m.ID() != id0 {
+			res.Violate(fw.Violation{Key: "c12-id-depends-on-noneffect-field:v1.Signatures", What: "the v1 transaction id changed when all signatures were dropped", Replay: map[string]any{"origin": origin, "field": "Signatures#drop-all", "txn": fw.Hex(chain.Encode(t)), "mutant": fw.Hex(chain.Encode(m))}})
+		}
+	}
 	leaves := c12Leaves(reflect.ValueOf(&t).Elem())
 	idx := x.rng.Perm(len(leaves))
 	if maxLeaves > 0 && len(idx) > maxLeaves {
@@ -563,12 +641,8 @@ func (x *c12Ctx) sweepV1(t types.Transaction, origin string, maxLeaves int) {
 		case !want && idChanged:
 			res.Violate(fw.Violation{Key: "c12-id-depends-on-noneffect-field:v1." + l.path, What: "the v1 transaction id changed when only " + name + " was changed", Replay: rp, Expected: "same id", Observed: "different id"})
 		}
-		// the ids derived from the transaction change exactly with it
-		for i := range t.SiacoinOutputs {
-			if i < len(m.SiacoinOutputs) && (m.SiacoinOutputID(i) != t.SiacoinOutputID(i)) != idChanged {
-				res.Violate(fw.Violation{Key: "c12-derived-id-not-following-txid", What: "a v1 siacoin output id changed differently from the transaction id", Replay: rp})
-			}
-		}
+		// every derived id reacts exactly like the specification says
+		x.derivedOracle(d0, c12DerivedV1(m), want, want && !idChanged, l.path, name, rp)
 	}
 }
 
@@ -1166,6 +1240,30 @@ func c12Replay(x *c12Ctx) {
 				if d1.Err() == nil {
 					x.eraOracle(t, "replay")
 					return
+				}
+			}
+			if strings.HasPrefix(st.Key, "c12-derived-id-") {
+				name := st.Replay.Field
+				if strings.Contains(st.Key, ":v2-") {
+					var t, m types.V2Transaction
+					d1, d2 := types.NewBufDecoder(tb), types.NewBufDecoder(mb)
+					t.DecodeFrom(d1)
+					m.DecodeFrom(d2)
+					if d1.Err() == nil && d2.Err() == nil {
+						want := c12EffectBearingV2(path)
+						x.derivedOracle(c12DerivedV2(t), c12DerivedV2(m), want, want && t.ID() == m.ID(), path, name, rp)
+						return
+					}
+				} else {
+					var t, m types.Transaction
+					d1, d2 := types.NewBufDecoder(tb), types.NewBufDecoder(mb)
+					t.DecodeFrom(d1)
+					m.DecodeFrom(d2)
+					if d1.Err() == nil && d2.Err() == nil {
+						want := c12EffectBearingV1(path)
+						x.derivedOracle(c12DerivedV1(t), c12DerivedV1(m), want, want && t.ID() == m.ID(), path, name, rp)
+						return
+					}
 				}
 			}
 			if strings.Contains(st.Key, ":v1.") {
